@@ -476,6 +476,22 @@ func init() {
 	reg("github.com/pkg/errors.Wrapf", func(m *Machine, fn *ssa.Function, a []Value) Value {
 		return wrap(m, a[0], m.SprintfLoose(concStrArg(m, a[1], "format"), m.variadic(a[2])))
 	})
+	// strconv integer formatting (base 10): same decimal model as fmt's %d
+	reg("strconv.FormatUint", func(m *Machine, fn *ssa.Function, a []Value) Value {
+		if b := a[1].(*Term); !b.IsConst() || b.Val != 10 {
+			m.unsupported("strconv.FormatUint with a base other than 10")
+		}
+		return m.FormatInt(a[0].(*Term), false)
+	})
+	reg("strconv.FormatInt", func(m *Machine, fn *ssa.Function, a []Value) Value {
+		if b := a[1].(*Term); !b.IsConst() || b.Val != 10 {
+			m.unsupported("strconv.FormatInt with a base other than 10")
+		}
+		return m.FormatInt(a[0].(*Term), true)
+	})
+	reg("strconv.Itoa", func(m *Machine, fn *ssa.Function, a []Value) Value {
+		return m.FormatInt(a[0].(*Term), true)
+	})
 	reg("internal/abi.NoEscape", func(m *Machine, fn *ssa.Function, a []Value) Value { return a[0] })
 	reg("runtime.Caller", func(m *Machine, fn *ssa.Function, a []Value) Value {
 		return Tuple{m.S.Const(64, 0), ConcStr("caller.go", m.S), m.S.Const(64, 1), m.S.True}
@@ -561,6 +577,14 @@ func init() {
 	reg("time.After", func(m *Machine, fn *ssa.Function, a []Value) Value {
 		return m.newTimer(fn.Signature.Results().At(0).Type().Underlying().(*types.Chan).Elem())
 	})
+	// time.AfterFunc(d, f): f runs in its own thread at a nondeterministic (but eventual) moment
+	reg("time.AfterFunc", func(m *Machine, fn *ssa.Function, a []Value) Value {
+		f := a[1].(*Closure)
+		m.spawn(func() { m.CallClosure(f, nil) })
+		t := fn.Signature.Results().At(0).Type().(*types.Pointer).Elem()
+		return Ptr{Obj: m.newObject(t, m.zero(t), "timer")}
+	})
+	reg("(*time.Timer).Stop", func(m *Machine, fn *ssa.Function, a []Value) Value { return m.S.False })
 	reg("time.Sleep", func(m *Machine, fn *ssa.Function, a []Value) Value { m.Yield(nil, "Sleep"); return nil })
 
 	// bytealg (assembly in the real build): reference semantics on byte vectors
